@@ -323,6 +323,8 @@ add("c13_disjoint_empty", "c13::h_disjoint_empty::<{N}>()", ["C13"], N_(0, 2), N
 add("c13_overlap", "c13::h_disjoint_overlap::<{N}, {J}>()", ["C13"], NJ([(1, 2), (2, 2), (2, 3)]), NJ([(3, 3), (2, 4), (3, 4)]), unwind="max(N,J)+2", profile="both",
     attrs=[SORT_CUT], expect=PANIC(*OVERLAP_PANIC), fn="Map::get_disjoint_mut with two equal present keys (must panic)", shape="S_u8")
 
+add("c06_big_whole", "c16::h_big_whole::<{N}>()", ["C06", "C16"], N_(1), N_(1), unwind="4", fn="FromIterator/From<[_;N]>/Extend/Clone/Sub/retain/drain/into_iter for Set and Map with a container larger than 8 KiB (size-threshold code is live in the analysed program)", shape="Big (8200-byte element)", timeout="30m")
+
 # ------------------------------------------------------------------ C17 lawless Eq
 LAW_OK = FULL_PANIC + OVERLAP_PANIC + INDEX_PANIC
 for i, op in enumerate(("insert", "insert_key_value", "checked_insert", "remove", "remove_entry", "lookups", "entry_or_insert", "retain", "entry_remove")):
